@@ -11,7 +11,7 @@ def _link(exclude):
 
 A_B = ['bounded: every raw path of length <= N over all 256 byte values; longer paths are not covered by these units',
        'reference = /verif/spec/path_ref.h (written from htp_config.h / htp_core.h comments, RFC 3986 5.2.4, RFC 3629 and the behaviour pinned by test_utils.cpp); '
-       'deliberate reference choices CHOICE(1..7) and KNOWN_F_C12_* carve-outs are listed in notes/c12.md']
+       'deliberate reference choices CHOICE(1..8) and KNOWN_F_C12_* carve-outs are listed in notes/c12.md']
 A_CFG = ['decoder configuration fully symbolic: every boolean switch any int, every enum switch any of its enumerators, replacement byte any byte, '
          'initial tx->flags and expected status symbolic']
 
@@ -67,7 +67,7 @@ bounded('c12_ref_normalize', S_A, NORM_PRE + '''
   VASSERT(b.len == rl, "normalised length equals RFC 3986 5.2.4 (with the pinned trailing-slash exception)");
   for (size_t i = 0; i < N; i++) if (i < b.len && i < rl) VASSERT(buf[i] == ref[i], "normalised bytes equal RFC 3986 5.2.4 (with the pinned trailing-slash exception)");
   VASSERT(!ref_has_dot_segment(buf, b.len), "normalised path contains no . or .. segment");
-''', 8, 10, sub="htp_normalize_uri_path_inplace == literal RFC 3986 5.2.4 reference with the trailing-slash exception; len' <= len; output has no dot segment")
+''', 8, 9, sub="htp_normalize_uri_path_inplace == literal RFC 3986 5.2.4 reference with the trailing-slash exception; len' <= len; output has no dot segment")
 
 bounded('c12_normalize_idempotent', S_A, NORM_PRE + '''
   htp_normalize_uri_path_inplace(&b);
@@ -76,14 +76,14 @@ bounded('c12_normalize_idempotent', S_A, NORM_PRE + '''
   htp_normalize_uri_path_inplace(&c);
   VASSERT(c.len == b.len, "normalising again does not change the length");
   for (size_t i = 0; i < N; i++) if (i < b.len && i < c.len) VASSERT(again[i] == buf[i], "normalising again does not change the bytes");
-''', 8, 10, sub='norm(norm(x)) == norm(x) on the real function, run twice')
+''', 8, 9, sub='norm(norm(x)) == norm(x) on the real function, run twice')
 
 bounded('c12_normalize_fixpoint', S_A, NORM_PRE + '''
   VASSUME(!ref_has_dot_segment(in.a, in.la));
   htp_normalize_uri_path_inplace(&b);
   VASSERT(b.len == in.la, "a path without dot segments keeps its length");
   for (size_t i = 0; i < N; i++) if (i < b.len) VASSERT(buf[i] == in.a[i], "a path without dot segments is left unchanged");
-''', 10, 13, sub='the normaliser is the identity on every path that has no . or .. segment (with c12_ref_normalize: idempotence at a larger bound)')
+''', 10, 12, sub='the normaliser is the identity on every path that has no . or .. segment (with c12_ref_normalize: idempotence at a larger bound)')
 
 # ------------------------------------------------------------------------------------------------
 # (c2) path decoder alone: bytes, length, indicator set and expected status equal the reference
@@ -117,7 +117,7 @@ DEC_BODY = DEC_PRE + '''
   size_t rl = ref_decode_path(&in.cf, C12_MAP, in.a, in.la, ref, &fx);
   VASSERT(rc == HTP_OK, "decode_path returns HTP_OK for every legal configuration");
 ''' + DEC_CMP % {'w': 'decoded path'}
-bounded('c12_ref_decode_path', S_D, DEC_BODY, 7, 9, unwindset=maploops(4), unwind_extra=1, extra_defs=PATHCTX,
+bounded('c12_ref_decode_path', S_D, DEC_BODY, 7, 8, unwindset=maploops(4), unwind_extra=1, extra_defs=PATHCTX,
         assumes=A_CFG + A_SYMMAP + A_NOCONV, flags_del=NOCONV, solver=CAD,
         sub='htp_decode_path_inplace == reference decoder for every decoder configuration (incl. %u decoding): bytes, length, EQUAL indicator set, equal expected status')
 bounded('c12_ref_decode_path_nou', S_D, DEC_BODY, 8, 10, unwindset=maploops(4), unwind_extra=1,
@@ -175,7 +175,7 @@ PIPE = DEC_PRE + '''
   VASSERT(c12_tx.response_status_expected_number == fx.status, "pipeline: expected status equals the reference pipeline");
 #endif
 '''
-bounded('c12_pipeline', S_D, PIPE, 6, 8, unwindset=utf8loops, unwind_extra=2, extra_defs=dict(PATHCTX, C12_PIPE_IDEM=1),
+bounded('c12_pipeline', S_D, PIPE, 6, 7, unwindset=utf8loops, unwind_extra=2, extra_defs=dict(PATHCTX, C12_PIPE_IDEM=1),
         assumes=A_CFG + A_SYMMAP + A_NOCONV, flags_del=NOCONV, solver=CAD,
         sub="real pipeline decode ; UTF-8 ; normalise (order of htp_normalize_parsed_uri), whole configuration symbolic: len' <= len, no dot segment, "
             "unchanged by normalising again, flags only grow")
@@ -190,7 +190,7 @@ bounded('c12_ref_urldecode', S_D, DEC_PRE + '''
   c12_tx.flags = fl; c12_tx.response_status_expected_number = st;
   size_t rl = ref_urldecode(&in.cf, C12_MAP, in.a, in.la, ref, &fx);
   VASSERT(rc == HTP_OK, "urldecode returns HTP_OK");
-''' + DEC_CMP % {'w': 'urldecoded string'}, 6, 8, unwindset=maploops(4), unwind_extra=1,
+''' + DEC_CMP % {'w': 'urldecoded string'}, 6, 7, unwindset=maploops(4), unwind_extra=1,
         extra_defs=dict(PATHCTX, C12_CTX='in.ctx', C12_SCOPE='(in.ctx == HTP_DECODER_URLENCODED || in.ctx == HTP_DECODER_URL_PATH || in.ctx == HTP_DECODER_DEFAULTS)'),
         assumes=A_CFG + A_SYMMAP + A_NOCONV + ['decoder context symbolic over its three enumerators'], flags_del=NOCONV, solver=CAD,
         sub='htp_urldecode_inplace_ex == reference generic decoder in every context, plus->space on/off, every configuration: bytes, length, HTP_URLEN_* indicator set, expected status')
